@@ -526,6 +526,9 @@ func NewRouterEnv(spec string) (*RouterEnv, error) {
 		}
 		sc.Tcp.MaxConcurrentQueries = int32(maxc)
 		if k == "tcp" || k == "gnet" || k == "tls" {
+			if n, _ := strconv.Atoi(parts["N"]); n > 0 {
+				sc.Socket.SO_SNDBUF = n // N=<octets>: socket.so_sndbuf of the stream listeners (back-pressure with little data)
+			}
 			sc.IdleTimeout = idleSec // I=<seconds>: idle_timeout of the stream listeners (absent/0 = the default)
 		}
 		if k == "http" || k == "fasthttp" || k == "https" || k == "httpunix" || k == "fasthttpunix" {
